@@ -179,6 +179,36 @@ def run_net(ck):
     ck.cov["evaluations"] = ck.cov.get("evaluations", 0) + len(cases)
 
 
+def run_responder(ck):
+    """the other half of the measurement: the node that ANSWERS a status request must report a clock reading taken while it
+    handles the request (the physical assumption `explains` of C19_sound: the peer read its clock between Start and End).
+    A rounded or cached time would let a node whose clock is off by more than the election timeout slip in."""
+    from props import c11 as api
+    facts, _, _ = api.scan_routes()
+    wiring = api.wiring_of(facts)
+    n = 12 if ck.tier == "quick" else 120
+    line = "api status N F:%s:%s:ok " % (api.hx("0"), api.hx(api.BASE_CFG)) + " ".join(["J:" + api.hx(api.PW)] * n)
+    res, out = api.run_go([line], wiring, "c19status", timeout=900)
+    if res is None:
+        ck.add_obligation(False, "status responder probe ran")
+        ck.violation("tie-broken:go-driver-status", {"what": "the API driver did not build/run against the current tree", "output": out[-3000:],
+                                                     "obligation": "correspondence apidrv (C19 responder side)"}, concrete=False)
+        return
+    obs = [o for o in res[0][2:] if o["op"] == "J"]
+    okn = [o for o in obs if "early_ns" in o]
+    ck.add_obligation(len(okn) == n, "status responder probe ran (%d/%d JSON status answers)" % (len(okn), n))
+    worst_early = max([int(o["early_ns"]) for o in okn] + [0])
+    worst_late = max([int(o["late_ns"]) for o in okn] + [0])
+    ck.cov["status_probe"] = {"requests": n, "max_ns_reported_before_request_was_sent": worst_early, "max_ns_reported_after_answer_was_read": worst_late}
+    ck.cov["evaluations"] = ck.cov.get("evaluations", 0) + n
+    if worst_early > 0 or worst_late > 0:
+        ck.violation("status:time-not-read-during-request", {
+            "what": "GET / (JSON) reported a CurrentTime %d ns BEFORE the request was sent / %d ns AFTER the answer was read (same process, same clock): "
+                    "the reported time is not a clock reading taken while the request was handled, so the drift bound of the joining node "
+                    "no longer covers the true offset" % (worst_early, worst_late),
+            "cases": [line], "how_to_replay": "bin/check C19"}, concrete=True)
+
+
 def run(ck, replay):
     ck.cov["trusted_base"] += [
         "python regex scan of robustirc.go / timesafeguard.go for the constant and the call order (translator-lite)",
@@ -265,6 +295,7 @@ def run(ck, replay):
                                       "coq_output": ck.proof_result["output_tail"]}, concrete=False)
     if not replay:
         run_net(ck)
+        run_responder(ck)
     bad = [o for o in ck.cov.get("extra_obligations", []) if not o["ok"]]
     if bad and not monfail:
         ck.violation("obligation:" + bad[0]["name"].replace(" ", "_"), {"what": "source-derived obligation failed", "obligations": bad,
